@@ -4,4 +4,5 @@ INVARIANT SAgree
 INVARIANT Emit
 CONSTANT ReadShapes <- ShapesSim
 CONSTANT ReadMax = 4
+CONSTANT PairShapes <- PairsSim
 CHECK_DEADLOCK FALSE
